@@ -146,11 +146,11 @@ class Evaluator:
         for r, b in fn.live_blocks():
             if b["term"]["k"] != "return":
                 continue
-            if loops:
+            if True:
                 # a body with a loop: paths in which every block is entered at most 3 times, every local resolved
                 # to its last definition before the use along the path (flow.shape_at); more iterations than that
                 # leave no feasible path and the evaluation fails closed
-                for path in pathterms.paths_with_loops(fn, r, max_visits=3):
+                for path in (pathterms.paths_with_loops(fn, r, max_visits=3) if loops else pathterms.acyclic_paths(fn, r)):
                     conds = []
                     for i, bb, op, taken, excluded in pathterms.conditions_at(fn, path):
                         sh = flow.shape_at(fn, op, path, (i, 10 ** 9), depth=64)
@@ -368,6 +368,8 @@ class Evaluator:
             v = self.consts[base[6:]]
         elif base in ("Option::None{}", "None{}", "Option::None"):
             v = None
+        elif base.endswith("{}") and "::" in base:
+            v = ("enum", base[:-2].split("::")[-1], {})  # a fieldless variant of an enum that also has variants with data
         elif base in ("true", "false"):
             v = base == "true"
         else:
@@ -702,6 +704,8 @@ class Evaluator:
             return guard(isrange, lambda args, fn: args[0][2])
         if full.endswith("RangeInclusive::new") and n == 2:
             return lambda args, fn: ("range", args[0], args[1])
+        if full.endswith("RangeInclusive::into_inner") and n == 1:
+            return guard(isrange, lambda args, fn: ("tuple", [args[0][1], args[0][2]]))
         if full.endswith("RangeInclusive::contains") and n == 2:
             return guard(isrange, lambda args, fn: ok(args[0][1]) <= ok(args[1]) <= ok(args[0][2]))
         d0 = lambda args: isdate(args[0])
